@@ -115,6 +115,9 @@ def run_check(modname: str, tier: str) -> int:
     os.makedirs(os.path.join(kernel.out_dir(), 'evidence'), exist_ok=True)
 
     runs = mod.plan(tier, master)
+    flt = os.environ.get('VERIF_PLAN_FILTER')     # validation aid only: a sub-plan (use VERIF_OUT too)
+    if flt:
+        runs = [r for r in runs if flt in json.dumps(r, default=str)]
     if hasattr(mod, 'warmup'):
         mod.warmup()
     budget = os.environ.get('VERIF_BUDGET_S')
